@@ -62,7 +62,7 @@ H1_REQS = [  # (method, target, extra header lines)
     (b"GET", b"/n", [b"X-No-Host: 1"]),
     (b"GET", b"/2", [b"Host: a.example", b"Host: b.example"]),
     (b"OPTIONS", b"*", [b"Host: example.com", b"Proxy-Connection: keep-alive"]),
-    (b"GET", b"/u", [b"Host: \xc3\xa9.example", b"X-\xff: \xff"]),
+    (b"GET", b"/u", [b"Host: \xc3\xa9.example", b"X-Bin: \xff"]),
 ]
 H1_RESPS = [  # (status line, header lines, body on the wire, chunked?)
     (b"HTTP/1.1 200 OK", [b"Content-Length: 2", b"X-Upper: V"], b"ok"),
